@@ -56,6 +56,8 @@ Theorem C07_draw_sites_ok : forallb (fun '(moves, r) => site_ok moves r) draw_si
 Proof. vm_compute. reflexivity. Qed.
 Print Assumptions C07_draw_sites_ok.
 
-Example C07_example : let s := rrun (rinit 7) [RPick 1; RPick 2; RRestart 1 true; RPick 2] in
-  RI s /\ all_streams s = [(7, [0; 0]); (7, [0; 0; 0]); (7, [1; 0]); (7, [1; 1]); (7, [1; 0; 0]); (7, [1; 1; 0])].
-Proof. split; [apply C07_invariant; reflexivity|reflexivity]. Qed.
+Definition C07_example_state := rrun (rinit 7) [RPick 1; RPick 2; RRestart 1 true; RPick 2].
+Example C07_example :
+  RI C07_example_state /\
+  all_streams C07_example_state = [(7, [0; 0]); (7, [0; 0; 0]); (7, [1; 0]); (7, [1; 1]); (7, [1; 0; 0]); (7, [1; 1; 0])].
+Proof. split; [unfold C07_example_state; apply C07_invariant; reflexivity|reflexivity]. Qed.
